@@ -100,6 +100,7 @@ class CoopRLock:
 
     def __init__(self, env: "Env", handle: str) -> None:
         self.env = env
+        env.coop_locks.append(self)
         self.handle = handle
         self.owner: Optional[str] = None
         self.depth = 0
@@ -273,6 +274,8 @@ class Env:
         self.allow_spin = False                     # let lock pollers spin (timeout experiments)
         self.data_age_ms = 0                        # > 0: data files are back-dated by this much when written
         self.s3_lock_view: Optional[Callable[[str], bool]] = None   # S3: "is the lock held by someone else and not lapsed?"
+        self.flock_objs: Dict[str, Any] = {}       # lock path -> FileLock instance currently holding it
+        self.coop_locks: List[Any] = []             # every CoopRLock created (to release what a dead actor held)
         self.lock_deletes: List[Tuple[str, Optional[str]]] = []   # (actor, body of the lock object it deleted)
         self.heartbeats: List[Any] = []             # S3 lock providers whose lease would be renewed by a heartbeat thread
         self.etag_names: Dict[Any, Dict[str, int]] = {}
@@ -373,6 +376,31 @@ class Env:
                 return self.s3_lock_view(a.name)
             return any(h != a.name for h in self.flocks.values())
         return blocked
+
+
+def kill_actor(env: "Env", name: str) -> None:
+    """The process of actor `name` dies (kill -9) at its current scheduling point: its thread is never
+    resumed; what the kernel would release is released here (flock on the closed fd, in-process locks).
+    Objects on storage - markers, files, an S3 lock object - stay."""
+    a = env.sched.actors[name]
+    env.sched.crash(a)
+    # a pointer resolution the dead actor had started but not finished never produced a result
+    env.sched.trace[:] = [e for e in env.sched.trace if not (e.get("k") == "Resolve" and e.get("a") == name and "ok" not in e)]
+    for path, holder in list(env.flocks.items()):
+        if holder == name:
+            obj = env.flock_objs.pop(path, None)
+            if obj is not None and getattr(obj, "_lock_fd", None) is not None:
+                try:
+                    os.close(obj._lock_fd)          # closing the descriptor drops the kernel lock
+                except OSError:
+                    pass
+                obj._lock_fd = None
+                obj._locked = False
+                del env.flocks[path]
+    for cl in env.coop_locks:
+        if cl.owner == name:
+            cl.owner, cl.depth, cl.evented = None, 0, []
+    env.sched.emit({"k": "Crash", "a": "env", "who": name})
 
 
 # ------------------------------------------------------------------------------------------------
@@ -596,6 +624,8 @@ def _emit_storage_event(env: Env, a: Actor, op: str, cls: str, path: str, args: 
     if op == "delete_file":
         if cls == "marker":
             s.emit({"k": "DeleteMarker", "f": env.marker_fid(path), "ok": ok, "err": errname})
+        elif cls == "meta":
+            s.emit({"k": "DiscardMeta", "name": env.ids.name(path), "ok": ok, "err": errname})
         else:
             s.emit({"k": "DeleteFile", "f": env.ids.fid(path), "cls": cls, "ok": ok, "err": errname})
         return
@@ -612,6 +642,8 @@ def _emit_storage_event(env: Env, a: Actor, op: str, cls: str, path: str, args: 
     if op == "read_file_with_etag" and cls == "hint":
         if ok:
             text = res[0].decode("utf-8", "replace").strip() if res and res[0] is not None else ""
+            if text.isdigit():
+                text = f"v{text}.metadata.json"            # legacy form: a bare version number
             nm = env.ids.name(text) if META_RE.match(text.rsplit("/", 1)[-1]) else {"v": -1, "u": 0}
             if not hasattr(env, "etag_names"):
                 env.etag_names = {}
@@ -850,6 +882,7 @@ def install(env: Env) -> None:
         ok = orig_try(self)
         if ok:
             env.flocks[self.lock_file] = me
+            env.flock_objs[self.lock_file] = self
         env.sched.emit({"k": "LockTry", "ok": bool(ok)})
         return ok
 
